@@ -5,8 +5,16 @@ open KeepVerif KeepVerif.C20
 /-! Driver for C20.  Challenges are kept as their 64-digit lower-case hex text (`C := String`);
 `H` is the table of real `hashToChallenge` values carried by the op line. -/
 
-def isLowerHex64 (s : String) : Bool :=
-  s.length == 64 && s.toList.all fun c => ('0' ≤ c && c ≤ '9') || ('a' ≤ c && c ≤ 'f')
+def isLowerHex (s : String) : Bool :=
+  s.length % 2 == 0 && s.toList.all fun c => ('0' ≤ c && c ≤ '9') || ('a' ≤ c && c ≤ 'f')
+
+def isLowerHex64 (s : String) : Bool := s.length == 64 && isLowerHex s
+
+/-- little-endian value of a hex byte string -/
+def leValue (s : String) : Nat :=
+  match parseHex (if s = "" then "-" else s) with
+  | some bs => bs.foldr (fun b acc => acc * 256 + b.toNat) 0
+  | none => 0
 
 def parseU64 (s : String) : Option Nat :=
   if s.isEmpty || !s.toList.all Char.isDigit then none
@@ -19,6 +27,9 @@ def pstr (s : String) : String := if s = "_" then "" else s
 
 structure Tamper where
   n : Option Nat := none
+  /-- raw nonce field (hex) -/
+  l : Option String := none
+  /-- challenge field (hex, any length up to 40 bytes) -/
   c : Option String := none
   p : Option String := none
 
@@ -29,11 +40,13 @@ def parseTamper (s : String) (allow : List Char) : Option Tamper :=
       let v := String.ofList v
       if !allow.contains k then none
       else if k = 'n' then
-        match t.n, parseU64 v with
-        | none, some x => some { t with n := some x }
-        | _, _ => none
+        match t.n, t.l, parseU64 v with
+        | none, none, some x => some { t with n := some x }
+        | _, _, _ => none
+      else if k = 'l' then
+        if t.l.isNone && t.n.isNone && isLowerHex v && v.length ≤ 32 then some { t with l := some v } else none
       else if k = 'c' then
-        if t.c.isNone && isLowerHex64 v then some { t with c := some v } else none
+        if t.c.isNone && isLowerHex v && v.length ≤ 80 then some { t with c := some v } else none
       else if k = 'p' then
         if t.p.isNone && v ≠ "" then some { t with p := some (pstr v) } else none
       else none
@@ -69,17 +82,26 @@ def parseCase (line : String) : Option Case :=
     let n1 ← parseU64 n1
     let n2 ← parseU64 n2
     if p1 = "" || p2 = "" then none
-    let t1 ← parseTamper t1 ['n', 'p']
-    let t2 ← parseTamper t2 ['n', 'c', 'p']
+    let t1 ← parseTamper t1 ['n', 'l', 'p']
+    let t2 ← parseTamper t2 ['n', 'l', 'c', 'p']
     let t3 ← parseTamper t3 ['c']
     let tab ← parseTable tab
     pure ⟨n1, pstr p1, n2, pstr p2, t1, t2, t3, tab⟩
   | _ => none
 
-def Case.net (c : Case) : Net String where
-  f1 := fun m => ⟨c.t1.n.getD m.nonce, c.t1.p.getD m.proto⟩
-  f2 := fun m => ⟨c.t2.n.getD m.nonce, c.t2.c.getD m.challenge, c.t2.p.getD m.proto⟩
-  f3 := fun m => ⟨c.t3.c.getD m.challenge⟩
+def Tamper.ok (t : Tamper) : Bool :=
+  wireOk (t.l.map (·.length / 2)) (t.c.map (·.length / 2))
+
+def Tamper.nonce (t : Tamper) (orig : Nat) : Nat :=
+  match t.l with
+  | some l => leValue l
+  | none => t.n.getD orig
+
+/-- the network of the op line: field rewrites; a field of the wrong length does not unmarshal -/
+def Case.net (c : Case) : WNet String where
+  f1 := fun m => if c.t1.ok then some ⟨c.t1.nonce m.nonce, c.t1.p.getD m.proto⟩ else none
+  f2 := fun m => if c.t2.ok then some ⟨c.t2.nonce m.nonce, c.t2.c.getD m.challenge, c.t2.p.getD m.proto⟩ else none
+  f3 := fun m => if c.t3.ok then some ⟨c.t3.c.getD m.challenge⟩ else none
 
 def showErr : Err → String
   | .protocol => "err:protocol"
@@ -94,11 +116,14 @@ def showOutcome : Outcome String → String
   | .iFail a1 a2 e => s!"{showA1 a1} r=ok {showA2 a2} i={showErr e}"
   | .fFail a1 a2 a3 e => s!"{showA1 a1} r=ok {showA2 a2} i=ok {showA3 a3} f={showErr e}"
   | .done a1 a2 a3 => s!"{showA1 a1} r=ok {showA2 a2} i=ok {showA3 a3} f=ok"
+  | .u1Fail a1 => s!"{showA1 a1} u1=err:wire"
+  | .u2Fail a1 a2 => s!"{showA1 a1} r=ok {showA2 a2} u2=err:wire"
+  | .u3Fail a1 a2 a3 => s!"{showA1 a1} r=ok {showA2 a2} i=ok {showA3 a3} u3=err:wire"
 
 def model (line : String) : String :=
   match parseCase line with
   | none => "bad-op"
-  | some c => showOutcome (run (lookupH c.tab) c.n1 c.p1 c.n2 c.p2 c.net)
+  | some c => showOutcome (runWire (lookupH c.tab) c.n1 c.p1 c.n2 c.p2 c.net)
 
 def monitor (op obs : String) : String :=
   match parseCase op with
@@ -106,18 +131,19 @@ def monitor (op obs : String) : String :=
   | some c =>
     let toks := obs.splitOn " "
     if !(toks.all fun t => t.startsWith "a1=" || t.startsWith "a2=" || t.startsWith "a3="
-          || t.startsWith "r=" || t.startsWith "i=" || t.startsWith "f=") then
+          || t.startsWith "r=" || t.startsWith "i=" || t.startsWith "f=" || t.startsWith "u1="
+          || t.startsWith "u2=" || t.startsWith "u3=") then
       "FAIL unparsable-observation"
     else
     let completed := toks.getLast? == some "f=ok"
     -- the two table entries the closed formula needs
-    let m1n := c.t1.n.getD c.n1
-    let m2n := c.t2.n.getD c.n2
-    let have1 := c.tab.any (fun e => e.1 = (m1n, c.n2))
-    let have2 := c.tab.any (fun e => e.1 = (c.n1, m2n))
+    let m1n := c.t1.nonce c.n1
+    let m2n := c.t2.nonce c.n2
+    let have1 := !c.t1.ok || c.tab.any (fun e => e.1 = (m1n, c.n2))
+    let have2 := !(c.t1.ok && c.t2.ok) || c.tab.any (fun e => e.1 = (c.n1, m2n))
     if !(have1 && have2) then "FAIL missing-hash-entry"
     else if !tableInjective c.tab then "FAIL hash-collision (A-hash violated by the real function)"
-    else if holds (lookupH c.tab) c.n1 c.p1 c.n2 c.p2 c.net completed then "ok"
+    else if holdsW (lookupH c.tab) c.n1 c.p1 c.n2 c.p2 c.net completed then "ok"
     else if completed then "FAIL handshake-completed-but-conditions-do-not-hold"
     else "FAIL handshake-failed-although-all-conditions-hold"
 
